@@ -9,8 +9,8 @@ import tempfile
 SLOT = 32
 
 
-def reference(lines, att=False):
-    """-> list of (length, objdump text) or None (GNU as rejects the line or warns about it)"""
+def reference(lines, att=False, want_bytes=False):
+    """-> list of (length, objdump text[, bytes]) or None (GNU as rejects the line or warns about it)"""
     if not lines:
         return []
     with tempfile.TemporaryDirectory() as d:
@@ -39,6 +39,13 @@ def reference(lines, att=False):
         if not os.path.exists(obj):
             return [None] * len(lines)
         out = subprocess.run(['objdump', '-d', '-M', 'intel', '--no-show-raw-insn', obj], capture_output=True, text=True).stdout
+        raw = b''
+        if want_bytes:
+            binf = os.path.join(d, 'x.bin')
+            subprocess.run(['objcopy', '-O', 'binary', '-j', '.text', obj, binf], capture_output=True)
+            if os.path.exists(binf):
+                with open(binf, 'rb') as f:
+                    raw = f.read()
     starts, addrs = {}, []
     for line in out.splitlines():
         m = re.match(r'^\s*([0-9a-f]+):\t(.*)$', line)
@@ -54,7 +61,7 @@ def reference(lines, att=False):
         if k in bad or a not in starts:
             res.append(None)
         else:
-            res.append((nxt[a] - a, starts[a]))
+            res.append((nxt[a] - a, starts[a], raw[a:nxt[a]]) if want_bytes else (nxt[a] - a, starts[a]))
     return res
 
 
